@@ -337,7 +337,11 @@ def splice_fn(a, item, uc, group_props, canary=False, drop_hints=()):
                 used_loops.add(key)
                 out.append((t, "loop", key, props or unit_safety))
             elif key.startswith("iter:") and lenx and idx:
-                out.append(("    invariant %s <= %s.len(),\n    decreases %s.len() - %s," % (idx, lenx, lenx, idx), "loop", key, unit_safety))
+                if idx.startswith("w:"):
+                    idx = idx[2:]
+                    out.append(("    invariant %s == 0 || %s + 1 <= %s.len(),\n    decreases %s.len() - %s," % (idx, idx, lenx, lenx, idx), "loop", key, unit_safety))
+                else:
+                    out.append(("    invariant %s <= %s.len(),\n    decreases %s.len() - %s," % (idx, lenx, lenx, idx), "loop", key, unit_safety))
             else:
                 raise Undecided("no loop contract for %s in %s" % (key, uid))
             out.append(("{", None, None, None))
